@@ -494,13 +494,20 @@ pub fn run_pass(steps: &[Step], l: usize, write: bool, pre: &Built, rec: &mut Ve
     first_panic
 }
 
-fn judge(o: &Obs) -> Option<(String, String)> {
+/// `all`: every observation of the same event sequence (all probes). An inversion h -> L is excused only
+/// if *all* acquisitions that involve the pair {h, L} - in either order, by any handler - happen
+/// under one common outer lock that precedes both and is write-held: a lock held by this handler
+/// alone does not serialise it against a handler that takes the pair without that lock.
+fn judge(o: &Obs, all: &[Obs]) -> Option<(String, String)> {
     let rl = RANK[o.acquiring];
     for (h, _w) in &o.held {
         let rh = RANK[*h];
         if rh > rl {
-            // serialised by an outer lock that precedes both and is write-held throughout?
-            let serialised = o.held.iter().any(|(x, w)| *w && RANK[*x] < rl && RANK[*x] < rh);
+            let serialised = o.held.iter().filter(|(x, w)| *w && RANK[*x] < rl && RANK[*x] < rh).any(|(x, _)| {
+                all.iter()
+                    .filter(|o2| (o2.acquiring == o.acquiring && o2.held.iter().any(|(y, _)| y == h)) || (o2.acquiring == *h && o2.held.iter().any(|(y, _)| *y == o.acquiring)))
+                    .all(|o2| o2.held.iter().any(|(y, w)| y == x && *w))
+            });
             if !serialised {
                 let base = o.handler.split('(').next().unwrap_or(&o.handler).to_string();
                 return Some((
@@ -538,12 +545,14 @@ pub fn run_case(case: &Case, pre: &Built) -> (Vec<(String, String)>, Info, Vec<O
                 for (h, _) in &o.held {
                     info.pairs.insert((*h, o.acquiring));
                 }
-                if let Some(x) = judge(&o) {
-                    if !v.iter().any(|y| y.0 == x.0) {
-                        v.push(x);
-                    }
-                }
                 all.push(o);
+            }
+        }
+    }
+    for o in &all {
+        if let Some(x) = judge(o, &all) {
+            if !v.iter().any(|y| y.0 == x.0) {
+                v.push(x);
             }
         }
     }
